@@ -68,11 +68,11 @@ CLAIMS = {
             TB, "DESIGN.md 5/C23"),
     "C24": ("schedsim", "fault_enumeration",
             "deterministic simulation with fault injection: recording (eager and lazy) source/lock fakes, seeded schedules incl. pre-emptive ones with lock contention, read fault at enumerated request positions",
-            "Per generated read program: fault-free runs under several schedules, one of them pre-emptive with 2-3 reads in flight contending for the lock (values == NumPy indexing, every request in bounds and under the user's lock -- for lazy sources at the moment the selection is materialised --, lock free at the end, no deadlock), then an injected read error at request positions (all of them in the thorough tier; every other one while other reads are in flight) with a correct fault-free retry.",
+            "Per generated read program: fault-free runs under several schedules, one of them pre-emptive with 2-3 reads in flight contending for the lock (values == NumPy indexing, every request in bounds and under the user's lock -- for lazy sources at the moment the selection is materialised --, lock free at the end, no deadlock), then an injected read error at request positions (all of them in the thorough tier, up to 32 per program; every other one while other reads are in flight) with a correct fault-free retry.",
             TB + "ndarray sources are sliced by NumPy itself (bounds unobservable): values only.", "DESIGN.md 5/C24"),
     "C25": ("schedsim", "fault_enumeration",
             "deterministic simulation with fault injection: recording target/lock fakes with per-cell write counters (incl. shared read-modify-write targets), seeded schedules incl. pre-emptive ones, write fault at enumerated positions",
-            "Per generated store: fault-free runs under several schedules, pre-emptive ones with 2-3 writes in flight (target == model, region cells written exactly once, others never, lock discipline also for the lock store makes for lock=True, no lost update on a shared read-modify-write target), then an injected write error at write positions (all in thorough) and a fault-free re-run; npy-stack round trips with the k-th np.save failing.",
+            "Per generated store: fault-free runs under several schedules, pre-emptive ones with 2-3 writes in flight (target == model, region cells written exactly once, others never, lock discipline also for the lock store makes for lock=True, no lost update on a shared read-modify-write target), then an injected write error at write positions (all in thorough, up to 32 per program) and a fault-free re-run; npy-stack round trips with the k-th np.save failing.",
             TB + "Negative region bounds are refused by store (NotImplementedError) and excluded.", "DESIGN.md 5/C25"),
     "C26": ("importsim", "exploration",
             "deterministic simulation: seeded import/registration histories, one fresh interpreter each, every dask_array module imported in every history",
